@@ -16,6 +16,7 @@ FN_NAME = {1: "pack", 2: "build_area_rows", 3: "js.convert_regions"}
 # they are not suppressed any more, their witnesses are in the regression corpus (corpus_scenes).
 CLASS_ASSERT = "area_assert_cross_origin"
 CLASS_GENE_GAP = "gene_across_region_gap"
+CLASS_GENE_LONG = "gene_long_way_round"
 
 
 # ---------------------------------------------------------------- encoding
@@ -122,6 +123,7 @@ class Gen:
     def __init__(self, rng):
         self.rng = rng
         self.Cand = make_candidate_class()
+        self.order = "as_generated"
 
     def extent(self, base, width, min_len=1, max_len=None):
         rng = self.rng
@@ -167,8 +169,16 @@ class Gen:
             except Exception:  # pylint: disable=broad-except
                 continue
             scene.protos.append(proto)
-        for i in range(rng.choice([0, 0, 0, 1, 1, 2, 3])):
-            start, end = self.extent(base, width, 1)
+        # dense flavour: many short sub-regions, so that a row holds several occupants when an
+        # origin-crossing one arrives (Row.can_fit has to look at every occupant, not at one of them)
+        dense = circular and shape < 0.75 and rng.random() < 0.25
+        scene.dense = dense
+        n_subs = rng.choice([3, 4, 5, 6, 7]) if dense else rng.choice([0, 0, 0, 1, 1, 2, 3])
+        for i in range(n_subs):
+            if dense and rng.random() < 0.8:
+                start, end = self.extent(base, width, 1, max(1, width // rng.choice([5, 8, 12])))
+            else:
+                start, end = self.extent(base, width, 1)
             label = "" if rng.random() < 0.15 else f"s{i + 1}"
             scene.subs.append(SubRegion(mkloc(start, end, length), tool="t", label=label))
         for i in range(rng.choice([0, 1, 2, 3, 5])):
@@ -182,7 +192,27 @@ class Gen:
                 parts = [FL(s, mid, strand), FL(mid + 1, e, strand)]
                 if strand == -1:
                     parts.reverse()
+                if rng.random() < 0.15:
+                    # exons listed against the direction of the strand: location_bridges_origin is True, the gene
+                    # runs the long way round the ring (finding gene_long_way_round in an ordinary region,
+                    # gene_across_region_gap in an origin-crossing one)
+                    parts.reverse()
                 location = CL(parts)
+            elif rng.random() < 0.3 and len(location.parts) == 2:
+                # a third exon for an origin-crossing gene, before its first or after its last exon (in the
+                # direction of the strand); it may land on the far side of the gap that an origin-crossing
+                # region leaves on the ring (finding gene_across_region_gap)
+                FL, CL = secmet()
+                parts = sorted(location.parts, key=lambda part: -int(part.start))   # [s, N) then [0, e)
+                tail_end, head_start = int(parts[1].end), int(parts[0].start)
+                if head_start - tail_end >= 3:
+                    a = rng.randint(tail_end + 1, head_start - 2)
+                    b = rng.randint(a + 1, head_start - 1)
+                    extra = FL(a, b, strand)
+                    parts = [extra] + parts if rng.random() < 0.5 else parts + [extra]
+                    if strand == -1:
+                        parts.reverse()
+                    location = CL(parts)
             scene.genes.append(DummyCDS(location=location, locus_tag=f"g{i}"))
         return scene
 
@@ -205,9 +235,25 @@ class Gen:
                 cand.number = number
                 cands.append(cand)
         subs = list(scene.subs)
-        if rng.random() < 0.3:
+        # the Region constructor keeps the order of its children, and pack() places them in that order:
+        # as generated, shuffled, in plain start order (an origin-crossing area then comes AFTER the areas
+        # that lie behind the origin, which is the only way Row.can_fit meets an origin-crossing area with
+        # several occupants already in the row - seed C19-seed3), or in the order of Feature.__lt__
+        order = rng.random()
+        if order < 0.25:
+            self.order = "as_generated"
+        elif order < 0.45:
+            self.order = "shuffled"
             rng.shuffle(subs)
             rng.shuffle(cands)
+        elif order < 0.8:
+            self.order = "plain_start"
+            subs.sort(key=lambda f: int(f.start))
+            cands.sort(key=lambda f: int(f.start))
+        else:
+            self.order = "feature_lt"
+            subs.sort()
+            cands.sort()
         return [Region(cands, subs)]
 
 
@@ -238,6 +284,18 @@ def corpus_scenes(gen):
         (1000, [((400, 700), (100, 1050)), ((450, 600), (420, 800))], False),
     ]
     out = []
+    # gene_long_way_round (C19-K3): region [69,75) on a ring of 100, gene join{[72:73](+), [69:71](+)}
+    from antismash.common.secmet.test.helpers import DummyCDS
+    FL, CL = secmet()
+    scene = Scene(100, True)
+    scene.subs = [SubRegion(FL(69, 75, 1), tool="t", label="s1")]
+    scene.genes = [DummyCDS(location=CL([FL(72, 73, 1), FL(69, 71, 1)]), locus_tag="g0")]
+    out.append((scene, [Region([], list(scene.subs))]))
+    # gene_across_region_gap (F45): region [10,30)+[0,9) on a ring of 30, gene join{[7:9](+), [10:11](+)}
+    scene = Scene(30, True)
+    scene.subs = [SubRegion(mkloc(10, 39, 30), tool="t", label="s1")]
+    scene.genes = [DummyCDS(location=CL([FL(7, 9, 1), FL(10, 11, 1)]), locus_tag="g0")]
+    out.append((scene, [Region([], list(scene.subs))]))
     for length, protos, whole in layouts:
         scene = Scene(length, True)
         scene.protos = [proto(core, extent, length, f"p{i + 10:04d}") for i, (core, extent) in enumerate(protos)]
@@ -248,6 +306,34 @@ def corpus_scenes(gen):
         cand.number = 1
         out.append((scene, [Region([cand], list(scene.subs))]))
     return out
+
+
+def crossing_meets_occupied_row(region):
+    """ True if, while packing the sub-regions or the drawn candidate clusters in the order of the region, an
+        origin-crossing area is offered to a row that already holds at least two areas (the situation in which
+        Row.can_fit has to test the newcomer against every occupant) """
+    from antismash.outputs.html.area_packing import Row
+    groups = [list(region.subregions),
+              [c for c in region.candidate_clusters if region.subregions or str(c.kind) != "single"]]
+    for areas in groups:
+        rows = [Row()]
+        for area in areas:
+            for row in rows:
+                if area.crosses_origin() and len(row.contents) >= 2 and row.end == -1:
+                    return True
+                try:
+                    if row.can_fit(area):
+                        row.add(area)
+                        break
+                except Exception:  # pylint: disable=broad-except
+                    return False
+            else:
+                rows.append(Row())
+                try:
+                    rows[-1].add(area)
+                except Exception:  # pylint: disable=broad-except
+                    return False
+    return False
 
 
 def protocluster_set_order(region):
@@ -416,10 +502,14 @@ def pack_case(gen, rng):
 RULE = ("fn1 pack: 0-8 sub-regions on rings of 30..1000 (walks with gaps end+0/+1/+2, random extents, origin-crossing "
         "extents [s,N)+[0,e) with e<=s), sorted by the collection order, by start, or unsorted, with length None/-1/N/N//2/0; "
         "fn2 build_area_rows and fn3 js.convert_regions (description rendering stubbed): scenes of 1-5 protoclusters (core "
-        "anywhere inside the extent, also equal to it), 0-3 sub-regions and 0-5 genes (either strand, two exons, origin-spanning) "
+        "anywhere inside the extent, also equal to it), 0-3 sub-regions (3-7 mostly short ones in a quarter of the circular "
+        "scenes) and 0-5 genes (either strand, two exons, origin-spanning, origin-spanning with a third exon before or after, "
+        "possibly on the far side of the gap of the region) "
         "in a window of a linear or circular record (window anywhere, over the origin, or the whole record), regions built "
-        "(a) directly from arbitrary groups of the protoclusters as 1-3 candidate clusters of any kind plus the sub-regions, in "
-        "sorted or shuffled order, and (b) by Record.create_candidate_clusters/create_regions; origin-crossing features only on "
+        "(a) directly from arbitrary groups of the protoclusters as 1-3 candidate clusters of any kind plus the sub-regions, the "
+        "children handed to Region in the order generated, shuffled, in plain start order (35%: the order in which Row.can_fit "
+        "meets an origin-crossing area with several occupants in the row) or in Feature.__lt__ order, "
+        "and (b) by Record.create_candidate_clusters/create_regions; origin-crossing features only on "
         "circular records; excluded (counted): features whose wrapped tail overlaps the head, protocluster sets on which "
         "CDSCollection.__lt__ is not a strict weak order (Python's sort result then depends on Timsort internals), scenes the "
         "secmet constructors refuse.  The decidable specification (extents in range, rows disjoint, every feature drawn once or as "
@@ -432,7 +522,8 @@ def known_classes():
 
 
 def judge_spec(chk, flat, impl_out, verdict, known, describe):
-    """ verdict of spec_areas (+ spec_orfs, class_gene_gap): [all e d c ch chc (orfs gene_gap)] """
+    """ verdict of spec_areas (+ spec_orfs, class_gene_gap, class_gene_long_way):
+        [all e d c ch chc (orfs gene_gap gene_long_way)] """
     if verdict == [-999]:
         chk.violation("broken-correspondence", "specification could not decode the implementation output",
                       {"theorem_or_correspondence": "spec decoding", "flat": flat, "implementation": impl_out})
@@ -457,6 +548,9 @@ def judge_spec(chk, flat, impl_out, verdict, known, describe):
         if len(verdict) > 7 and verdict[7] and CLASS_GENE_GAP in known:
             chk.count("known_" + CLASS_GENE_GAP)
             chk.known(known[CLASS_GENE_GAP]["what_fails"])
+        elif len(verdict) > 8 and verdict[8] and CLASS_GENE_LONG in known:
+            chk.count("known_" + CLASS_GENE_LONG)
+            chk.known(known[CLASS_GENE_LONG]["what_fails"])
         else:
             failures.append("a gene lies outside the announced range")
     if not chain:
@@ -543,6 +637,10 @@ def run(chk):
                 "whole_record" if scene.circular and region.location.start == 0 and region.location.end == scene.length
                 else ("circular" if scene.circular else "linear"))
             chk.count(f"region_{shape}_{'pipeline' if pipeline else 'direct'}")
+            if not pipeline and corpus_regions is None:
+                chk.count("children_order_" + gen.order)
+            if crossing_meets_occupied_row(region):
+                chk.count("origin_crossing_area_meets_row_with_2+_occupants")
             desc = describe_region(region, scene.length, scene.circular)
             out = impl_build(region, scene.length, scene.circular)
             add([PROP, 2] + payload, out, out[0] == 0 and out[1] >= 2, desc)
@@ -555,6 +653,8 @@ def run(chk):
                     gflat += enc_loc(gene.location)
                 if any(g.crosses_origin() for g in genes):
                     chk.count("region_with_origin_spanning_gene")
+                if any(g.crosses_origin() and len(g.location.parts) == 3 for g in genes):
+                    chk.count("region_with_three_exon_origin_spanning_gene")
                 desc3 = describe_region(region, scene.length, scene.circular, genes)
                 add([PROP, 3] + payload + gflat, converted[index], converted[index][0] == 0 and len(genes) >= 1, desc3)
 
